@@ -64,6 +64,8 @@ structure Cmd where
   k : Int
   d : Int
   pick : Nat := 0          -- ghost: which candidate Go's map iteration meets first (default DNS target)
+  extra : Nat := 0         -- claimed: when ≠ 0 the body also carries every identity-like JSON key (`Gen.c11.identityKeys`) with this foreign value
+  faults : Nat := 0        -- ghost schedule: bit i set = the i-th storage read of the named mapping's main record during the command fails transiently
 deriving DecidableEq, Repr
 
 /-- Repaired code vs. the code as found (five missing checks, see KNOWN_FINDINGS `fixed:` lines). -/
@@ -140,6 +142,9 @@ def nodes (w : World) : List Nat := (w.conns.map (·.node)).eraseDups
 client is connected pushes a TunnelOpenRequest to it -/
 def broadcastOpen (w : World) (target : Int) : List Dlv :=
   (nodes w).filterMap (fun n => (online w n target).map (fun tc => ⟨tc, c11.cmd.TunnelOpenRequestCmd, none⟩))
+
+/-- does the `n`-th read of the named mapping's record fail (transient storage error)? -/
+def Cmd.flt (c : Cmd) (n : Nat) : Bool := c.faults.testBit n
 
 def getRef {α} (xs : List α) (r : Int) : Option (Nat × α) :=
   if r < 0 then none else
@@ -266,6 +271,7 @@ def execH (v : Variant) (h : Handler) (w : World) (f : Nat) (c : Cmd) : Run :=
     match getRef w.maps c.m with
     | none => Run.err
     | some (i, m) =>
+      if c.flt 0 then Run.err else                  -- GetPortMapping failed: "mapping not found"
       if (v == .repaired && id == 0) || id != m.listen then Run.err else
       match online w (nodeOf w f) m.target with
       | some tc => ⟨true, .none, if tc == f then [.map i] else [], [], [⟨tc, c11.cmd.TunnelOpenRequestCmd, none⟩], []⟩
@@ -278,7 +284,9 @@ def execH (v : Variant) (h : Handler) (w : World) (f : Nat) (c : Cmd) : Run :=
     match getRef w.maps c.m with
     | none => Run.quiet
     | some (i, m) =>
+      if c.flt 0 then Run.quiet else                -- GetPortMapping failed: treated as "mapping may be gone"
       if v == .repaired && (id == 0 || !isParty id m) then Run.err
+      else if c.flt 1 || c.flt 2 then Run.quiet     -- UpdatePortMappingStats re-reads twice; a failure is only logged
       else ⟨true, .none, [], [.mod (.map i)], [], []⟩
   | .dnsReq q =>
     if c.bad then dnsErr w f else
@@ -327,13 +335,20 @@ def execH (v : Variant) (h : Handler) (w : World) (f : Nat) (c : Cmd) : Run :=
     if c.bad then Run.failResp else
     match getRef w.maps c.m with
     | none => Run.failResp
-    | some (i, m) => if !isParty id m then Run.failResp else Run.okResp [.map i] [] []
+    | some (i, m) =>
+      if c.flt 0 then Run.failResp else               -- GetMapping failed: "mapping not found"
+      if !isParty id m then Run.failResp else Run.okResp [.map i] [] []
   | .mapDelete =>
     if id == 0 then Run.failResp else
     if c.bad then Run.failResp else
     match getRef w.maps c.m with
     | none => Run.failResp
-    | some (i, m) => if !isParty id m then Run.failResp else Run.okResp [] [.del (.map i)] []
+    | some (i, m) =>
+      if c.flt 0 then Run.failResp else               -- the ownership read failed: refused, whoever asks
+      if !isParty id m then Run.failResp else
+      -- repo.DeletePortMapping re-reads the record; if that read fails it purges the index entries it can find
+      -- (the mapping disappears from both parties' lists) and leaves the main record
+      if c.flt 1 then Run.okResp [] [.mod (.map i)] [] else Run.okResp [] [.del (.map i)] []
   | .domBase => Run.okResp [] [] []
   | .domCheck => if c.bad then Run.failResp else Run.okResp [] [] []
   | .domGen => if c.bad then Run.failResp else Run.okResp [] [] []
@@ -369,8 +384,8 @@ def addressed (c : Cmd) : Bool :=
   | _ => false
 
 /-- the same packet with the claimed fields blanked: `SenderId`, `ReceiverId`, `Token`, and the body's
-`target_client_id` unless the command is `addressed` -/
+`target_client_id` unless the command is `addressed`, and the extra identity-like keys smuggled into the body -/
 def Cmd.strip (c : Cmd) : Cmd :=
-  { c with snd := "0", rcv := "0", tok := "-", g := if addressed c then c.g else 0 }
+  { c with snd := "0", rcv := "0", tok := "-", g := if addressed c then c.g else 0, extra := 0 }
 
 end Tunnox.C11
